@@ -1,6 +1,397 @@
-//! C02 harnesses (see /verif/kani/README.md for conventions)
+//! C02 (bounded, heap): `BoxedUint` division and remainder at 1 and 2 limbs.
+//!
+//! The deductive engine proves the slice-level helpers (`div_rem_vartime_in_place`, `div2by1`, `div3by2`, ...); the
+//! `BoxedUint` wrappers around them (allocation, shifting, limb selection, precision handling) are checked here on the
+//! real code. Symbolic 64-bit division does not terminate in CBMC, so dividend and divisor are *indices into tables of
+//! edge constants*; the expected quotient and remainder are computed from the same tables by rustc's constant
+//! evaluator (`const` items below: native `u128` `/` and `%`), so the reference costs one table lookup.
+//! `Reciprocal::new` contains an 11-iteration loop (`short_div`), hence `#[kani::unwind(13)]`.
 use crate::*;
+use crate::util::*;
 use crypto_bigint::*;
 
+/// see c16.rs: makes a `#[kani::should_panic]` harness fail unless the call panics for every admitted input
+fn returned_instead_of_panicking() {
+    #[cfg(kani)]
+    unsafe {
+        let p: *const u8 = core::ptr::null();
+        let v = core::ptr::read_volatile(p);
+        core::hint::black_box(v);
+    }
+    #[cfg(not(kani))]
+    crate::src::missed_panic();
+}
+
+const M: u64 = u64::MAX;
+const H: u64 = 1 << 63;
+
+/// one-limb dividends: 0, 1, 2, 3, small, 2^32 +- 1, 2^63 +- 1, MAX-1, MAX, products q*d and q*d +- 1
+const N1: [u64; 16] = [
+    0, 1, 2, 3, 7, 0xffff_ffff, 1 << 32, (1 << 32) + 1, H - 1, H, H + 1, M - 1, M,
+    0xffff_fffe_0000_0001, // (2^32-1)^2
+    0xffff_fffe_0000_0000, // (2^32-1)^2 - 1
+    0xffff_fffe_0000_0002, // (2^32-1)^2 + 1
+];
+/// one-limb divisors (non-zero): 1, 2, 3, powers of two, 2^32 +- 1, 2^63, 2^63 + 1 (normalised), MAX - 1, MAX
+const D1: [u64; 12] = [1, 2, 3, 7, 1 << 31, 0xffff_ffff, 1 << 32, (1 << 32) + 1, H, H + 1, M - 1, M];
+
+const fn qr1() -> [[(u64, u64); 12]; 16] {
+    let mut t = [[(0u64, 0u64); 12]; 16];
+    let mut i = 0;
+    while i < 16 {
+        let mut j = 0;
+        while j < 12 { t[i][j] = (N1[i] / D1[j], N1[i] % D1[j]); j += 1; }
+        i += 1;
+    }
+    t
+}
+const QR1: [[(u64, u64); 12]; 16] = qr1();
+
+const fn w(hi: u64, lo: u64) -> u128 { ((hi as u128) << 64) | lo as u128 }
+
+/// two-limb dividends
+const N2: [u128; 16] = [
+    0, 1, 3, M as u128, w(1, 0), w(1, 1), w(0, H), w(H, 0), w(H, 1), w(H - 1, M), w(M, M), w(M, M - 1),
+    w(M - 1, 1),     // (2^64-1)^2
+    w(M - 1, 0),     // (2^64-1)^2 - 1
+    w(M, 0),         // top limb MAX, second 0
+    w(0x1234_5678_9abc_def0, 0x0fed_cba9_8765_4321),
+];
+/// two-limb divisors (non-zero), incl. single-limb values inside the two-limb width, bit length 64 and 128,
+/// normalised top limb MAX / 2^63, second limb 0 / MAX
+const D2: [u128; 14] = [
+    1, 2, 3, H as u128, M as u128, w(1, 0), w(1, 1), w(1, M), w(H, 0), w(H, M), w(M, 0), w(M, M), w(M - 1, 1),
+    w(0x1234_5678, 0x9abc_def0_0fed_cba9),
+];
+const fn qr2() -> [[(u128, u128); 14]; 16] {
+    let mut t = [[(0u128, 0u128); 14]; 16];
+    let mut i = 0;
+    while i < 16 {
+        let mut j = 0;
+        while j < 14 { t[i][j] = (N2[i] / D2[j], N2[i] % D2[j]); j += 1; }
+        i += 1;
+    }
+    t
+}
+const QR2: [[(u128, u128); 14]; 16] = qr2();
+
+/// mixed widths: two-limb dividend by one-limb divisor (quotient two limbs, remainder one limb) ...
+const fn qr21() -> [[(u128, u64); 12]; 16] {
+    let mut t = [[(0u128, 0u64); 12]; 16];
+    let mut i = 0;
+    while i < 16 {
+        let mut j = 0;
+        while j < 12 { t[i][j] = (N2[i] / D1[j] as u128, (N2[i] % D1[j] as u128) as u64); j += 1; }
+        i += 1;
+    }
+    t
+}
+const QR21: [[(u128, u64); 12]; 16] = qr21();
+/// ... and one-limb dividend by two-limb divisor (quotient one limb, remainder two limbs)
+const fn qr12() -> [[(u64, u128); 14]; 16] {
+    let mut t = [[(0u64, 0u128); 14]; 16];
+    let mut i = 0;
+    while i < 16 {
+        let mut j = 0;
+        while j < 14 { t[i][j] = ((N1[i] as u128 / D2[j]) as u64, N1[i] as u128 % D2[j]); j += 1; }
+        i += 1;
+    }
+    t
+}
+const QR12: [[(u64, u128); 14]; 16] = qr12();
+
+fn pick1<S: Src>(s: &mut S) -> (u64, u64, u64, u64) {
+    let i = s.usize(); let j = s.usize();
+    s.assume(i < 16 && j < 12);
+    let (q, r) = QR1[i][j];
+    (N1[i], D1[j], q, r)
+}
+fn pick2<S: Src>(s: &mut S) -> (u128, u128, u128, u128) {
+    let i = s.usize(); let j = s.usize();
+    s.assume(i < 16 && j < 14);
+    let (q, r) = QR2[i][j];
+    (N2[i], D2[j], q, r)
+}
+fn pick21<S: Src>(s: &mut S) -> (u128, u64, u128, u64) {
+    let i = s.usize(); let j = s.usize();
+    s.assume(i < 16 && j < 12);
+    let (q, r) = QR21[i][j];
+    (N2[i], D1[j], q, r)
+}
+fn pick12<S: Src>(s: &mut S) -> (u64, u128, u64, u128) {
+    let i = s.usize(); let j = s.usize();
+    s.assume(i < 16 && j < 14);
+    let (q, r) = QR12[i][j];
+    (N1[i], D2[j], q, r)
+}
+
+fn nz(x: BoxedUint) -> NonZero<BoxedUint> {
+    let o = NonZero::new(x);
+    match Option::<NonZero<BoxedUint>>::from(o) { Some(v) => v, None => { assert!(false, "non-zero value reported as zero"); loop {} } }
+}
+/// one limb holding `v`
+fn is1(x: &BoxedUint, v: u64) -> bool { x.nlimbs() == 1 && x.as_words()[0] == v }
+/// two limbs holding `v`
+fn is2(x: &BoxedUint, v: u128) -> bool { x.nlimbs() == 2 && x.as_words()[0] == v as u64 && x.as_words()[1] == (v >> 64) as u64 }
+
+/// `body` once for every listed constant index (straight-line code, `$j` is a `const`)
+macro_rules! for_const {
+    ($j:ident in [$($n:literal),*] $body:block) => { $( { const $j: usize = $n; $body } )* };
+}
+
+// The vartime forms branch on the divisor's length and CBMC runs out of memory when that is symbolic, and the
+// constant-time two-limb form multiplies by the divisor's limbs: in those harnesses the divisor is a *concrete* table
+// entry per call (`const J`) and the dividend a symbolic table index. Quick tier: a few divisors per harness;
+// thorough tier (`c02t_`): all of them.
+
+fn vt1<const J: usize>(x: &BoxedUint, i: usize) {
+    let (qq, rr) = x.div_rem_vartime(&nz(BoxedUint::from(D1[J])));
+    assert!(is1(&qq, QR1[i][J].0));
+    assert!(is1(&rr, QR1[i][J].1));
+}
+fn rvt1<const J: usize>(x: &BoxedUint, i: usize) {
+    let dd = nz(BoxedUint::from(D1[J]));
+    assert!(is1(&x.rem_vartime(&dd), QR1[i][J].1));
+    assert!(is1(&x.wrapping_div_vartime(&dd), QR1[i][J].0));
+}
+fn ct2<const J: usize>(x: &BoxedUint, i: usize) {
+    let (qq, rr) = x.div_rem(&nz(BoxedUint::from(D2[J])));
+    assert!(is2(&qq, QR2[i][J].0));
+    assert!(is2(&rr, QR2[i][J].1));
+}
+fn vt2<const J: usize>(x: &BoxedUint, i: usize) {
+    let (qq, rr) = x.div_rem_vartime(&nz(BoxedUint::from(D2[J])));
+    assert!(is2(&qq, QR2[i][J].0));
+    assert!(is2(&rr, QR2[i][J].1));
+}
+fn rvt2<const J: usize>(x: &BoxedUint, i: usize) {
+    assert!(is2(&x.rem_vartime(&nz(BoxedUint::from(D2[J]))), QR2[i][J].1));
+}
+fn vt21<const J: usize>(x: &BoxedUint, i: usize) {
+    let dd = nz(BoxedUint::from(D1[J]));
+    let (qq, rr) = x.div_rem_vartime(&dd);
+    assert!(is2(&qq, QR21[i][J].0));
+    assert!(is1(&rr, QR21[i][J].1));
+    assert!(is1(&x.rem_vartime(&dd), QR21[i][J].1));
+}
+fn vt12<const J: usize>(x: &BoxedUint, i: usize) {
+    let dd = nz(BoxedUint::from(D2[J]));
+    let (qq, rr) = x.div_rem_vartime(&dd);
+    assert!(is1(&qq, QR12[i][J].0));
+    assert!(is2(&rr, QR12[i][J].1));
+    assert!(is2(&x.rem_vartime(&dd), QR12[i][J].1));
+}
+fn n1<S: Src>(s: &mut S) -> (BoxedUint, usize) { let i = s.usize(); s.assume(i < 16); (BoxedUint::from(N1[i]), i) }
+fn n2<S: Src>(s: &mut S) -> (BoxedUint, usize) { let i = s.usize(); s.assume(i < 16); (BoxedUint::from(N2[i]), i) }
+
 harnesses! {
+    // ------------------------------------------------------------------ one limb
+
+    /// div_rem (constant-time) at 64 bits: q = floor(n/d), r = n - q d, both 64 bits wide
+    #[kani::unwind(13)]
+    fn c02_boxed_div_rem_1(s) {
+        let (n, d, q, r) = pick1(s);
+        s.cover(q != 0 && r != 0);
+        let (qq, rr) = BoxedUint::from(n).div_rem(&nz(BoxedUint::from(d)));
+        assert!(is1(&qq, q));
+        assert!(is1(&rr, r));
+    }
+    /// rem (constant-time) at 64 bits
+    #[kani::unwind(13)]
+    fn c02_boxed_rem_1(s) {
+        let (n, d, _q, r) = pick1(s);
+        assert!(is1(&BoxedUint::from(n).rem(&nz(BoxedUint::from(d))), r));
+    }
+    /// wrapping_div and the `/`, `%` operators (constant-time forms) at 64 bits
+    #[kani::unwind(13)]
+    fn c02_boxed_wrapping_div_ops_1(s) {
+        let (n, d, q, r) = pick1(s);
+        let dd = nz(BoxedUint::from(d));
+        let x = BoxedUint::from(n);
+        assert!(is1(&x.wrapping_div(&dd), q));
+        assert!(is1(&(&x / &dd), q));
+        assert!(is1(&(&x % &dd), r));
+    }
+    /// div_rem_limb / rem_limb at 64 bits
+    #[kani::unwind(13)]
+    fn c02_boxed_div_rem_limb_1(s) {
+        let (n, d, q, r) = pick1(s);
+        let dl = NonZero::<Limb>::new_unwrap(Limb(d));
+        let x = BoxedUint::from(n);
+        let (qq, rr) = x.div_rem_limb(dl);
+        assert!(is1(&qq, q) && rr.0 == r);
+        assert!(x.rem_limb(dl).0 == r);
+    }
+    /// checked_div at 64 bits: none exactly when the divisor is zero, otherwise the quotient
+    #[kani::unwind(13)]
+    fn c02_boxed_checked_div_1(s) {
+        let i = s.usize(); let j = s.usize();
+        s.assume(i < 16 && j <= 12);
+        let n = N1[i];
+        let d = if j == 12 { 0 } else { D1[j] };
+        s.cover(d == 0);
+        let res = Option::<BoxedUint>::from(BoxedUint::from(n).checked_div(&BoxedUint::from(d)));
+        match res {
+            None => assert!(d == 0),
+            Some(qq) => { assert!(d != 0); assert!(is1(&qq, QR1[i][if j == 12 { 0 } else { j }].0)); }
+        }
+    }
+    /// div_rem_vartime at 64 bits, divisors 3, 2^32 - 1, 2^32 + 1, 2^63 + 1, MAX
+    #[kani::unwind(13)]
+    fn c02_boxed_div_rem_vartime_1(s) {
+        let (x, i) = n1(s);
+        vt1::<2>(&x, i); vt1::<5>(&x, i); vt1::<7>(&x, i); vt1::<9>(&x, i); vt1::<11>(&x, i);
+    }
+    /// div_rem_vartime at 64 bits, all 12 divisors
+    #[kani::unwind(13)]
+    fn c02t_boxed_div_rem_vartime_1(s) {
+        let (x, i) = n1(s);
+        vt1::<0>(&x, i); vt1::<1>(&x, i); vt1::<2>(&x, i); vt1::<3>(&x, i); vt1::<4>(&x, i); vt1::<5>(&x, i);
+        vt1::<6>(&x, i); vt1::<7>(&x, i); vt1::<8>(&x, i); vt1::<9>(&x, i); vt1::<10>(&x, i); vt1::<11>(&x, i);
+    }
+    /// rem_vartime and wrapping_div_vartime at 64 bits, divisors 3 and 2^63 + 1; DivVartime / RemMixed for 2^63 + 1
+    #[kani::unwind(13)]
+    fn c02_boxed_rem_vartime_1(s) {
+        let (x, i) = n1(s);
+        rvt1::<2>(&x, i); rvt1::<9>(&x, i);
+        let dd = nz(BoxedUint::from(D1[9]));
+        assert!(is1(&x.div_vartime(&dd), QR1[i][9].0));
+        assert!(is1(&x.rem_mixed(&dd), QR1[i][9].1));
+    }
+    /// rem_vartime and wrapping_div_vartime at 64 bits, all 12 divisors
+    #[kani::unwind(13)]
+    fn c02t_boxed_rem_vartime_1(s) {
+        let (x, i) = n1(s);
+        rvt1::<0>(&x, i); rvt1::<1>(&x, i); rvt1::<2>(&x, i); rvt1::<3>(&x, i); rvt1::<4>(&x, i); rvt1::<5>(&x, i);
+        rvt1::<6>(&x, i); rvt1::<7>(&x, i); rvt1::<8>(&x, i); rvt1::<9>(&x, i); rvt1::<10>(&x, i); rvt1::<11>(&x, i);
+    }
+    /// div_rem and div_rem_vartime at 64 bits for EVERY dividend, divisors 2^63, 2^63 + 1, MAX - 1, MAX (normalised
+    /// divisors, reciprocal corner d = MAX; quotient 0 or 1): n = q d + r and r < d
+    #[kani::unwind(13)]
+    fn c02_boxed_div_rem_1_large_divisors_all_dividends(s) {
+        let n = s.u64();
+        let x = BoxedUint::from(n);
+        for_const!(J in [8, 9, 10, 11] {
+            let dd = nz(BoxedUint::from(D1[J]));
+            let (qq, rr) = x.div_rem_vartime(&dd);
+            assert!(qq.nlimbs() == 1 && rr.nlimbs() == 1);
+            let (q, r) = (qq.as_words()[0], rr.as_words()[0]);
+            assert!(r < D1[J]);
+            assert!((q as u128) * (D1[J] as u128) + r as u128 == n as u128);
+            let (q2, r2) = x.div_rem(&dd);
+            assert!(is1(&q2, q) && is1(&r2, r));
+        });
+    }
+
+    // ------------------------------------------------------------------ two limbs
+
+    /// div_rem (constant-time) at 128 bits (about 100 s per divisor: thorough tier only), divisors 3, 2^64 - 1,
+    /// 2^64 + 1, 2^127 + 2^64 - 1, 2^128 - 1, (2^64 - 1)^2
+    #[kani::unwind(13)]
+    fn c02t_boxed_div_rem_2(s) {
+        let (x, i) = n2(s);
+        ct2::<2>(&x, i); ct2::<4>(&x, i); ct2::<6>(&x, i); ct2::<9>(&x, i); ct2::<11>(&x, i); ct2::<12>(&x, i);
+    }
+    /// div_rem_vartime at 128 bits, divisors 2^64 - 1 and 2^128 - 1
+    #[kani::unwind(13)]
+    fn c02_boxed_div_rem_vartime_2(s) {
+        let (x, i) = n2(s);
+        vt2::<4>(&x, i); vt2::<11>(&x, i);
+    }
+    /// div_rem_vartime at 128 bits, all 14 divisors
+    #[kani::unwind(13)]
+    fn c02t_boxed_div_rem_vartime_2(s) {
+        let (x, i) = n2(s);
+        vt2::<0>(&x, i); vt2::<1>(&x, i); vt2::<2>(&x, i); vt2::<3>(&x, i); vt2::<4>(&x, i); vt2::<5>(&x, i); vt2::<6>(&x, i);
+        vt2::<7>(&x, i); vt2::<8>(&x, i); vt2::<9>(&x, i); vt2::<10>(&x, i); vt2::<11>(&x, i); vt2::<12>(&x, i); vt2::<13>(&x, i);
+    }
+    /// rem_vartime at 128 bits, divisors 2^64 + 1, 2^127 + 2^64 - 1, (2^64-1)^2
+    #[kani::unwind(13)]
+    fn c02_boxed_rem_vartime_2(s) {
+        let (x, i) = n2(s);
+        rvt2::<6>(&x, i); rvt2::<9>(&x, i); rvt2::<12>(&x, i);
+    }
+    /// rem_vartime at 128 bits, all 14 divisors
+    #[kani::unwind(13)]
+    fn c02t_boxed_rem_vartime_2(s) {
+        let (x, i) = n2(s);
+        rvt2::<0>(&x, i); rvt2::<1>(&x, i); rvt2::<2>(&x, i); rvt2::<3>(&x, i); rvt2::<4>(&x, i); rvt2::<5>(&x, i); rvt2::<6>(&x, i);
+        rvt2::<7>(&x, i); rvt2::<8>(&x, i); rvt2::<9>(&x, i); rvt2::<10>(&x, i); rvt2::<11>(&x, i); rvt2::<12>(&x, i); rvt2::<13>(&x, i);
+    }
+    /// checked_div at 128 bits, symbolic divisor index (zero included)
+    #[kani::unwind(13)]
+    fn c02t_boxed_checked_div_2(s) {
+        let i = s.usize(); let j = s.usize();
+        s.assume(i < 16 && j <= 14);
+        let n = N2[i];
+        let d = if j == 14 { 0 } else { D2[j] };
+        let res = Option::<BoxedUint>::from(BoxedUint::from(n).checked_div(&BoxedUint::from(d)));
+        match res {
+            None => assert!(d == 0),
+            Some(qq) => { assert!(d != 0); assert!(is2(&qq, QR2[i][if j == 14 { 0 } else { j }].0)); }
+        }
+    }
+    /// div_rem_limb / rem_limb with a 128-bit dividend
+    #[kani::unwind(13)]
+    fn c02_boxed_div_rem_limb_2(s) {
+        let (n, d, q, r) = pick21(s);
+        let dl = NonZero::<Limb>::new_unwrap(Limb(d));
+        let x = BoxedUint::from(n);
+        let (qq, rr) = x.div_rem_limb(dl);
+        assert!(is2(&qq, q) && rr.0 == r);
+        assert!(x.rem_limb(dl).0 == r);
+    }
+
+    // ------------------------------------------------------------------ mixed widths (vartime forms accept them)
+
+    /// div_rem_vartime / rem_vartime, 128-bit dividend by 64-bit divisor (3, MAX): quotient in the dividend's width,
+    /// remainder in the divisor's width
+    #[kani::unwind(13)]
+    fn c02_boxed_div_rem_vartime_2by1(s) {
+        let (x, i) = n2(s);
+        vt21::<2>(&x, i); vt21::<11>(&x, i);
+    }
+    /// the same, all 12 one-limb divisors
+    #[kani::unwind(13)]
+    fn c02t_boxed_div_rem_vartime_2by1(s) {
+        let (x, i) = n2(s);
+        vt21::<0>(&x, i); vt21::<1>(&x, i); vt21::<2>(&x, i); vt21::<3>(&x, i); vt21::<4>(&x, i); vt21::<5>(&x, i);
+        vt21::<6>(&x, i); vt21::<7>(&x, i); vt21::<8>(&x, i); vt21::<9>(&x, i); vt21::<10>(&x, i); vt21::<11>(&x, i);
+    }
+    /// div_rem_vartime / rem_vartime, 64-bit dividend by 128-bit divisor (3 inside two limbs, 2^64, (2^64-1)^2)
+    #[kani::unwind(13)]
+    fn c02_boxed_div_rem_vartime_1by2(s) {
+        let (x, i) = n1(s);
+        vt12::<2>(&x, i); vt12::<5>(&x, i); vt12::<12>(&x, i);
+    }
+    /// the same, all 14 two-limb divisors
+    #[kani::unwind(13)]
+    fn c02t_boxed_div_rem_vartime_1by2(s) {
+        let (x, i) = n1(s);
+        vt12::<0>(&x, i); vt12::<1>(&x, i); vt12::<2>(&x, i); vt12::<3>(&x, i); vt12::<4>(&x, i); vt12::<5>(&x, i); vt12::<6>(&x, i);
+        vt12::<7>(&x, i); vt12::<8>(&x, i); vt12::<9>(&x, i); vt12::<10>(&x, i); vt12::<11>(&x, i); vt12::<12>(&x, i); vt12::<13>(&x, i);
+    }
+
+    // ------------------------------------------------------------------ precision mismatch (constant-time forms)
+
+    /// div_rem with a divisor of another precision panics ("the precision of the divisor must match the dividend")
+    #[kani::should_panic]
+    #[kani::unwind(13)]
+    fn c02_boxed_div_rem_precision_mismatch_panics(s) {
+        let n = s.u64();
+        let d = s.u128();
+        s.assume(d != 0);
+        let _ = BoxedUint::from(n).div_rem(&nz(BoxedUint::from(d)));
+        returned_instead_of_panicking();
+    }
+    /// checked_div with a divisor of another precision panics
+    #[kani::should_panic]
+    #[kani::unwind(13)]
+    fn c02_boxed_checked_div_precision_mismatch_panics(s) {
+        let n = s.u128();
+        let d = s.u64();
+        s.assume(d != 0);
+        let _ = BoxedUint::from(n).checked_div(&BoxedUint::from(d));
+        returned_instead_of_panicking();
+    }
 }
